@@ -11,6 +11,16 @@ use std::fmt;
 
 /// protects the harness' memory against (legitimately accepted) counts up to the default max_seq_size of 10^9
 pub const HARNESS_SEQ_CAP: usize = 2_000_000;
+thread_local! {
+	static SEQ_CAP: std::cell::Cell<usize> = std::cell::Cell::new(HARNESS_SEQ_CAP);
+}
+/// monitors whose own values are small lower the cap (per worker thread) so that damaged counts cost less to refuse
+pub fn set_seq_cap(n: usize) {
+	SEQ_CAP.with(|c| c.set(n));
+}
+fn seq_cap() -> usize {
+	SEQ_CAP.with(|c| c.get())
+}
 
 #[derive(Default, Debug, Clone)]
 pub struct Stats {
@@ -350,7 +360,7 @@ impl<'de, 'a> Visitor<'de> for CV<'a> {
 				let mut out = Vec::new();
 				while let Some(x) = seq.next_element_seed(self.0.at(item))? {
 					out.push(x);
-					if out.len() > HARNESS_SEQ_CAP {
+					if out.len() > seq_cap() {
 						return Err(A::Error::custom("harness: sequence longer than the harness is willing to hold"));
 					}
 					let mut st = self.0.m.stats.borrow_mut();
@@ -385,7 +395,7 @@ impl<'de, 'a> Visitor<'de> for CV<'a> {
 				while let Some(k) = map.next_key::<String>()? {
 					let v = map.next_value_seed(self.0.at(item))?;
 					out.push((k, v));
-					if out.len() > HARNESS_SEQ_CAP {
+					if out.len() > seq_cap() {
 						return Err(A::Error::custom("harness: map longer than the harness is willing to hold"));
 					}
 					let mut st = self.0.m.stats.borrow_mut();
@@ -565,7 +575,7 @@ impl<'de, 'a> Visitor<'de> for AnySeed<'a> {
 			depth: self.depth + 1,
 		})? {
 			out.push(x);
-			if out.len() > HARNESS_SEQ_CAP {
+			if out.len() > seq_cap() {
 				return Err(A::Error::custom("harness: sequence longer than the harness is willing to hold"));
 			}
 			let mut st = self.stats.borrow_mut();
@@ -592,7 +602,7 @@ impl<'de, 'a> Visitor<'de> for AnySeed<'a> {
 				depth: self.depth + 1,
 			})?;
 			out.push((k, v));
-			if out.len() > HARNESS_SEQ_CAP {
+			if out.len() > seq_cap() {
 				return Err(A::Error::custom("harness: map longer than the harness is willing to hold"));
 			}
 			let mut st = self.stats.borrow_mut();
